@@ -44,7 +44,7 @@ CHECKS["C05"] = dict(
     technique="fault enumeration at every VM instruction boundary, each faulted run explained by TLC through fault injection into the TLA+ semantics (LuaSemFault), non-decreasing in the fault point; error-value family validated by LuaSemTrace",
     category="fault_enumeration",
     text="For every corpus program (protected bodies under pcall/xpcall/nested/metamethod/iterator/Go-side PCall) the real VM is run once per dispatch poll with a one-shot fault raised exactly there; TLC explores the fault-free run of the TLA+ semantics and, at every class of step boundaries, the run with the fault injected there; every real fault point must be explained by an injection point and the assignment must be non-decreasing, so lost, duplicated or reordered effects, wrong catcher, wrong handler count, damaged caller state or later misbehaviour are rejected. error(v,level) for v of every type through every catcher and host-function failures (RaiseError, Go panic) are validated likewise; a Go panic escaping, crash or hang is a violation by itself.",
-    design_ref="DESIGN.md section 4 C05", note=LSEM_NOTE + " Faults inside Go library functions occur only at their Lua callbacks; second faults (failing handler) are inconclusive.", specs=["LuaSem", "LuaSemTrace", "LuaSemFault"])
+    design_ref="DESIGN.md section 4 C05", note=LSEM_NOTE + " Faults inside Go library functions occur only at their Lua callbacks; second faults (failing handler) are inconclusive.", specs=["LuaSem", "LuaSemTrace", "LuaSemFault", "Frames", "FramesTrace"])
 CHECKS["C16"] = dict(
     technique="TLA+ specs Lexical (Denote/Quote/Numeral/IntToStr) and Calendar (Fields/SecondsOf/strftime) model-checked by TLC; TLC-enumerated literal texts, numeral spellings and instants replayed on the real lexer/tonumber/coercion/os.date/os.time; real %q and tostring output validated by LexicalTrace",
     category="model_checking",
@@ -57,7 +57,7 @@ CHECKS["C06"] = dict(
     technique="LuaSem coroutine rules (continuation per thread, status machine, value transfer) evaluated by TLC on generated coroutine scripts; status-machine invariants (CoInv) checked by TLC on every state; real traces validated by LuaSemTrace",
     category="model_checking",
     text="Scripts over 1-3 coroutines (create/wrap) whose bodies yield, resume any coroutine (incl. resumer, self, dead), query status, yield from nested/tail calls, loop with locals across yields, return or fail, driven by a main script, are run on the real interpreter; the trace (payload order and number, statuses, error propagation) must be the one LuaSem defines, and TLC checks on every spec state that exactly one thread runs, normal = resumer chain, dead keeps nothing. In addition every program's run is recorded instruction by instruction (state before each instruction of the main thread, through the deterministic context's dispatch poll) and TLC judges each distinct step against FramesStep.tla: a live, uncaptured local changes only if the instruction names its register as a target, and a readable local stays below the register top.",
-    design_ref="DESIGN.md section 4 C06", note=LSEM_NOTE + " No yield across pcall/metamethods/iterators (Lua 5.1 rejects it).", specs=["LuaSem", "LuaSemTrace", "FramesStep", "FramesStepTrace"])
+    design_ref="DESIGN.md section 4 C06", note=LSEM_NOTE + " No yield across pcall/metamethods/iterators (Lua 5.1 rejects it).", specs=["LuaSem", "LuaSemTrace", "FramesStep", "FramesStepTrace", "Frames", "FramesTrace", "LuaCoTransferTrace"])
 CHECKS["C11"] = dict(
     technique="design spec Cancel model-checked by TLC (dispatch bound, liveness); cancellation at every dispatch poll of a looping corpus on the real VM judged by TLC (LuaSemCancel) against the prefix of the uncancelled TLA+ behaviour; bounded-wait runs for blocking channel operations",
     category="model_checking",
@@ -98,14 +98,14 @@ CHECKS["C13"] = dict(
     text="TLC enumerates every interleaving of up to 3 processes on up to 2 channels (capacity 0..2) against history laws (exactly-once, FIFO, per-sender order, closed-channel rules, select only ready cases, refused payloads never travel). Thousands of real runs of 2-8 LStates in goroutines (GOMAXPROCS 1/4/16) log call/return of every channel operation per state; ChannelTrace must find an explaining interleaving. States created from one shared FunctionProto while others are created/compiled/closed must produce exactly the sequential trace, the prototype snapshot must be unchanged, and a race report on interpreter memory fails the run.",
     design_ref="DESIGN.md section 4 C13",
     note="The Go scheduler is sampled, not enumerated; the Go race detector is a trusted oracle outside TLA+. Payload admissibility judged on the top-level value only.",
-    specs=["Channel", "ChannelMC", "ChannelTrace", "LuaSemTrace"])
+    specs=["Channel", "ChannelMC", "ChannelTrace", "LuaSemTrace", "SharedProto", "SharedProtoTrace", "PerState", "PerStateTrace"])
 CHECKS["C14"] = dict(
     technique="TLA+ transcription of lstrlib.c's backtracking matcher and find/match/gmatch/gsub drivers (Pattern) with laws model-checked by TLC over a bounded-exhaustive pattern x subject scope; the same run exports reference results compared with the real functions; random calls validated by PatternTrace",
     category="model_checking",
     text="TLC proves on every pattern <=3 (thorough <=4) over 16 pattern symbols x every subject in scope that the transcription is self-consistent (well-formedness = lazy errors, soundness/completeness against a declarative set semantics for the capture-free fragment, greedy maximal / lazy minimal, capture bookkeeping, drivers agree, 27 manual vectors). For exactly that scope every real call of find/match (init -5..5), gmatch and gsub (7 replacement kinds) is compared with the outcomes TLC computes (up to 32.6M calls), plus seeded random longer cases decided by TLC; large inputs must end in a value or a Lua error in time.",
     design_ref="DESIGN.md section 4 C14",
     note="Trusted: TLC, Json, faithfulness of the transcription (supported by laws and vectors), harness projection. No byte 0 in patterns, no %f; error texts not compared.",
-    specs=["Pattern", "PatternMC", "PatternTrace"])
+    specs=["Pattern", "PatternMC", "PatternTrace", "PatternSets", "PatternEsc"])
 CHECKS["C17"] = dict(
     technique="LuaSem with per-layout token lines evaluated by TLC: error positions, error level 2, debug.getinfo lines, debug.getlocal/getupvalue enumeration and setlocal/setupvalue; real traces validated by LuaSemTrace under several layouts",
     category="model_checking",
@@ -123,7 +123,7 @@ CHECKS["C12"] = dict(
     text="CallStackImpl (fixed and segmented, sizes 1..17) and RegistryImpl (grow/resize, scaled sizes) are model-checked against bounded-sequence/list specs; each transition of those graphs plus seeded random histories is replayed on the real code and validated by TLC. 10,296 raw option tuples x context are compared with TLC's normalisation and thread inheritance. Limit probes must overflow only above the configured size, always as an error pcall catches, after which a follow-up computation is right; programs within limits must produce identical traces under every configuration (reference traces cross-validated by LuaSem).",
     design_ref="DESIGN.md section 4 C12",
     note="Trusted: TLC, the wrappers in verif_access.go, the lua-run harness. VM protocol preconditions assumed (Pop on non-empty, SetSp(n<=Sp)). One slot of register-file slack per overflow error already raised is admitted.",
-    specs=["CallStack", "CallStackImpl", "CallStackTrace", "Registry", "RegistryImpl", "RegistryTrace", "LuaOptions", "LuaLimitsTrace"])
+    specs=["CallStack", "CallStackImpl", "CallStackTrace", "Registry", "RegistryImpl", "RegistryMC", "RegistryTrace", "LuaOptions", "LuaOptionsGen", "LuaLimitsTrace"])
 
 CHECKS["C07"] = dict(
     technique="TLA+ well-formedness predicate (Bytecode; instruction words decoded inside TLA+) evaluated by TLC on every nested FunctionProto the real parser+compiler emit; TLC model-checks that WF implies safety of an abstract VM (BytecodeVM)",
@@ -131,7 +131,7 @@ CHECKS["C07"] = dict(
     text="TLC proves WF(p) => no index outside constants/stringConstants/upvalues/prototypes/code/frame, only instruction boundaries dispatched, for all one-instruction prototypes over boundary operands and all code sequences of <=3 words over ~105 well-formed and ill-formed instruction instances; the same predicate is evaluated by TLC on every prototype compiled from the generators' sources and an adversarial family (register/constant/upvalue limits, giant table constructors, jumps near the 18-bit range, deep nesting), including instructions never executed.",
     design_ref="DESIGN.md section 4 C07",
     note="Trusted: TLC, Json, the dumper (field copies, 16-bit split, VerifStringConstants), BytecodeVM as a reading of vm.go. MC bound <=3 words; FrameLimit 200; sources compiled, never executed.",
-    specs=["Bytecode", "BytecodeTrace", "BytecodeVM", "BytecodeMC"])
+    specs=["Bytecode", "BytecodeTrace", "BytecodeVM", "BytecodeMC", "CtorTrace"])
 
 CHECKS["C10"] = dict(
     technique="TLA+ ApiStackImpl (transcribed registry/LocalBase/call-return code) model-checked by TLC to refine the abstract per-activation lists of ApiStack; spec-generated histories replayed on the real LState inside nested host functions and validated by ApiStackTrace; object-level API methods validated against the Lua expression and LuaSem's operator definitions by ApiObjTrace",
